@@ -172,3 +172,94 @@ def path_table(body, atom_of, limit=5000):
                 dec[a] = vals
             rows.append((dec, ps.ret(), ps, other))
     return rows
+
+
+# ---- argument agreement (swapped same-typed arguments between workspace functions) -------------------
+
+def named_source(body, op, depth=0):
+    """The user-visible variable name an argument operand was read from, following compiler
+    temporaries through moves, copies, borrows and `.clone()`-like identity calls."""
+    while depth < 12:
+        depth += 1
+        pl = op.get("c") or op.get("m") if isinstance(op, dict) else None
+        if pl is None:
+            return None
+        l = pl["l"]
+        # field projections of a named aggregate are not the variable itself
+        projs = [p for p in pl.get("p", ()) if p != "*"]
+        nm = body.local_name(l)
+        if nm and not projs:
+            return nm
+        if projs:
+            return None
+        ds = [d for d in body.defs().get(l, ()) if d[2] != "partial" and not body.blocks[d[0]]["cleanup"]]
+        if len(ds) != 1:
+            return None
+        bb, j, kind, payload = ds[0]
+        if kind == "assign":
+            rv = payload
+            if rv["k"] == "use":
+                op = rv["op"]
+                continue
+            if rv["k"] in ("ref",):
+                op = {"c": rv["place"]}
+                continue
+            if rv["k"] == "cast":
+                op = rv["op"]
+                continue
+            return None
+        if kind == "call":
+            nmc = payload["callee"].get("name")
+            if nmc in ("clone", "by_ref", "as_ref", "borrow", "to_owned", "into", "deref") and payload["args"]:
+                op = payload["args"][0]
+                continue
+            return None
+        return None
+    return None
+
+
+def arg_swaps(P, bodies):
+    """Call sites (caller in `bodies`, callee any workspace function with named parameters) where two
+    arguments are read from variables whose names are exactly each other's parameter names."""
+    out = []
+    n_sites = 0
+    for b in bodies:
+        for cs in b.calls(normal_only=True):
+            c = cs.callee
+            if "indirect" in c:
+                continue
+            tgt = c.get("resolved") or c.get("path")
+            cb = P.bodies.get(tgt) or (P.bodies.get(P._norm_lookup(tgt)) if P._norm_lookup(tgt) else None)
+            if cb is None or cb.argc != len(cs.args) or cb.argc < 2:
+                continue
+            pnames = [cb.local_name(i + 1) for i in range(cb.argc)]
+            anames = [named_source(b, a) for a in cs.args]
+            if sum(1 for a in anames if a) < 2:
+                continue
+            n_sites += 1
+            for i in range(len(anames)):
+                for j in range(i + 1, len(anames)):
+                    if not anames[i] or not anames[j] or not pnames[i] or not pnames[j]:
+                        continue
+                    if pnames[i] == pnames[j] or anames[i] == anames[j]:
+                        continue
+                    if anames[i] == pnames[j] and anames[j] == pnames[i]:
+                        # same types only: otherwise it would not compile
+                        if cb.local_ty(i + 1) == cb.local_ty(j + 1):
+                            out.append((cs, i, j, anames[i], anames[j], cb.key))
+    return out, n_sites
+
+
+def arg_agreement_rule(chk, P, pid, crates_files, floor):
+    """Register one obligation per offending site, or one discharged obligation for the scan."""
+    bodies = [b for b in P.bodies.values() if any(b.crate == c and (f is None or b.file.endswith(f)) for c, f in crates_files)]
+    swaps, n = arg_swaps(P, bodies)
+    chk.floor("call sites with >=2 named arguments to named workspace parameters (argument-agreement scan)", n, floor)
+    if not swaps:
+        chk.ok("%s.args:scan" % pid, "no call passes two same-typed variables in each other's like-named parameter "
+               "positions (argument agreement over %d call sites)" % n, sites=["%d sites scanned" % n])
+    for cs, i, j, ai, aj, callee in swaps:
+        chk.fail("%s.args:%s->%s#%s/%s" % (pid, cs.body.key, callee, ai, aj),
+                 "arguments agree with the like-named parameters of the workspace function they are passed to",
+                 "call of %s at %s passes variable `%s` for parameter `%s` and `%s` for parameter `%s`: the two "
+                 "same-typed arguments are swapped" % (callee, cs.loc, ai, aj, aj, ai), loc=cs.loc)
